@@ -1,6 +1,6 @@
 SPECIFICATION Spec
 CONSTANTS
-  TU = 1
+  TU = 10
   Jit = 0
   NeMissing = FALSE
   PrefixPairs <- mcPrefixPairs
@@ -10,13 +10,13 @@ CONSTANTS
   SubCfgs <- mcSubCfgs
   MsgKinds <- mcMsgKinds
   BatchMax = 2
-  MaxMsgs = 9
+  MaxMsgs = 3
   MaxTopics = 5
   MaxSubs = 8
   MaxDels = 40
-  MaxTime = 100000
+  MaxTime = 20000000
   TickDs <- mcTickDs
-  PullMaxes = {1, 2, 10}
+  PullMaxes = {10}
   AckMax = 2
   ModSecs = {0, 4}
   JobAges = {0, 6}
@@ -24,10 +24,10 @@ CONSTANTS
   Ops <- mcOps
   Setup <- mcSetup
   ProjOfName <- mcProjOfName
-  Depth = 32
+  Depth = 60
   AttBound = 100
   ViewKeep = {}
-  RealBackoff = FALSE
+  RealBackoff = TRUE
   GenBFS = FALSE
   AckAll = FALSE
   Weights <- mcWeights
